@@ -2,6 +2,7 @@ package harness
 
 import (
 	"errors"
+	"net/http"
 	"syscall"
 	"fmt"
 	"io"
@@ -111,6 +112,8 @@ type runCtx struct {
 	launches map[string]int
 	runner   *app.ProjectRunner
 	proj     app.IProject
+	rest     app.IProject // the bundled client over the REST server over the runner (nil unless the scenario uses it)
+	eng      http.Handler
 	tmp      string
 }
 
@@ -238,6 +241,10 @@ func infoLite(c *types.ProcessConfig) InfoLite {
 // project is loaded afresh with replicas: n for that process and its names are reported
 func (rc *runCtx) audit(op *Op) *Audit {
 	p := rc.proj
+	viaRest := op.Rest && rc.rest != nil
+	if viaRest {
+		p = rc.rest
+	}
 	a := &Audit{Infos: map[string]InfoLite{}, Logs: map[string][]string{}, LogErrs: map[string]string{}, Gone: map[string]string{}}
 	names, err := p.GetLexicographicProcessNames()
 	a.Names, a.NamesErr = names, errStr(err)
@@ -250,7 +257,12 @@ func (rc *runCtx) audit(op *Op) *Audit {
 		} else {
 			a.Infos[n] = infoLite(c)
 		}
-		lines, err := p.GetProcessLog(n, 1000, 0)
+		var lines []string
+		if viaRest {
+			lines, err = rc.restLogs(n, 1000, 0)
+		} else {
+			lines, err = p.GetProcessLog(n, 1000, 0)
+		}
 		if err != nil {
 			a.LogErrs[n] = err.Error()
 		} else {
@@ -437,6 +449,9 @@ func RunScenario(t *testing.T, sc *Scenario, tape []int32) *RunResult {
 		}
 		rc.runner = runner
 		rc.proj = runner
+		if sc.Rest {
+			rc.restSetup()
+		}
 		if names, err := runner.GetDependenciesOrderNames(); err == nil {
 			simlog.Add(simlog.Event{Kind: "run.order", A: strings.Join(names, ",")})
 		}
@@ -607,6 +622,26 @@ func (rc *runCtx) runClient(c *Client) {
 
 func (rc *runCtx) doOp(op *Op) (any, error) {
 	p := rc.proj
+	if op.Rest && rc.rest != nil {
+		p = rc.rest
+	}
+	switch op.Op {
+	case "http":
+		body := ""
+		if len(op.Args) > 0 {
+			body = op.Args[0]
+		}
+		f := strings.SplitN(op.Arg, " ", 2)
+		if len(f) != 2 || rc.eng == nil {
+			return nil, fmt.Errorf("harness: bad http op %q", op.Arg)
+		}
+		return rc.rawHTTP(f[0], f[1], body), nil
+	case "cmp":
+		if rc.rest == nil || len(op.Args) == 0 {
+			return nil, fmt.Errorf("harness: cmp without REST")
+		}
+		return rc.cmpRead(op.Args[0], op.Arg), nil
+	}
 	switch op.Op {
 	case "start":
 		return nil, p.StartProcess(op.Arg)
